@@ -92,6 +92,14 @@ def recover(ctx, tree, sc, what, rep, targets=None):
     if rc != 0 or b"no work to do" not in so:
         ctx.violation("C07/recovery-not-converged", "%s: run after recovery: rc=%s %s" % (what, rc, so.decode("latin-1")[-300:]), rep)
         return False
+    # ... and no lock file: the dead ninja's .ninja_lock is removed by the next ninja that ends normally, also by one that finds
+    # nothing to run (a death after the last record was written leaves exactly that situation)
+    lock = (sc["builddir"] + "/" if sc.get("builddir") else "") + ".ninja_lock"
+    ctx.count("lock_file_checks_after_recovery")
+    if os.path.exists(tree.path(lock)):
+        ctx.violation("C07/lock-file-left-after-recovery", "%s: %s still exists after a recovery build that succeeded and a further run that had "
+                      "nothing to do (a clean build leaves none)" % (what, lock), rep)
+        return False
     # "identical to a clean build" also means nothing more than a clean build leaves: a response file is gone once its command
     # has succeeded, the depfile of a deps=gcc statement once it has been read - also when ninja died in between and the
     # recovery build found nothing left to do for that statement
@@ -329,6 +337,7 @@ def signal_scenario(ctx, seed):
     # behind ninja's stdout takes, nobody reads that pipe for the moment, so ninja sits in write() when the signal is sent
     # (a terminal that is slow or stopped with Ctrl-S, a pager, a CI log collector that is behind)
     busy = None
+    quick_sibling = None
     if sig != signal.SIGKILL and not group and rng.random() < 0.4:
         cand = [s_ for s_ in sc["stmts"] if s_["id"] != "link" and not s_.get("stubborn")]
         if cand:
@@ -337,6 +346,12 @@ def signal_scenario(ctx, seed):
             for s_ in sc["stmts"]:
                 if s_ is not busy and s_["id"] != "link" and not s_.get("stubborn"):
                     s_["vtool_args"] = [("1500" if a_ in ("150", "300", "600") else a_) for a_ in s_["vtool_args"]]
+            # ... and sometimes another command ends while ninja is stuck there: when ninja gets back to waiting, the signal is
+            # pending AND a pipe is readable - the wait returns the pipe, the signal is only seen by asking for pending signals
+            sib = [s_ for s_ in sc["stmts"] if s_ is not busy and s_["id"] != "link" and not s_.get("stubborn")]
+            quick_sibling = rng.choice(sib) if sib and rng.random() < 0.6 else None
+            if quick_sibling is not None:
+                quick_sibling["vtool_args"] = [("60" if a_ == "1500" else a_) for a_ in quick_sibling["vtool_args"]]
     t = e2e.Tree(sc)
     if any("--keep-times" in s_.get("vtool_args", []) for s_ in sc["stmts"]):
         ctx.count("signal_runs_with_time_preserving_tools")
@@ -377,6 +392,18 @@ def signal_scenario(ctx, seed):
                     pass
                 time.sleep(0.005)
             ctx.count("signal_runs_ninja_blocked_in_write" if in_write else "signal_runs_ninja_never_blocked_in_write")
+            if in_write and quick_sibling is not None:
+                qo = quick_sibling["outs"][0]
+                t1 = time.time()
+                while time.time() - t1 < 3 and p.poll() is None:
+                    evq = t.events()
+                    if not any(e["e"] == "S" and e["id"] == qo for e in evq):
+                        break                       # not started (-j1): nothing to wait for
+                    if any(e["e"] == "E" and e["id"] == qo for e in evq):
+                        ctx.count("signal_runs_a_command_ended_while_ninja_was_printing")
+                        time.sleep(0.03)
+                        break
+                    time.sleep(0.01)
         t_sig = None
         try:
             if group and p.poll() is None:
